@@ -26,7 +26,7 @@ func (i *c12Item) Clone() Item[uint8, c12ID] {
 
 var errC12Callback = errors.New("callback failed")
 
-//verif:h prop=C12 p.ops=3/4 cover=add,add-dup,modify,delete,callback-error,disabled runs=1000000 timeout=200/1200
+//verif:h prop=C12 p.ops=3/4 cover=add,add-dup,modify,delete,callback-error,disabled runs=1000000 timeout=900/1200
 func H_C12_onchangemap() {
 	var added, modified, deleted []uint8 // mirrored change log (ids)
 	var lastAll int
